@@ -89,7 +89,10 @@ class BMPWriter:
 
     def write_line(self, y: int, data: bytes) -> None:
         self.fp.seek(self.pos1 - (y + 1) * self.linesize)
-        self.fp.write(data)
+        if self.bits == 24:
+            # BMP stores blue, green, red
+            data = b"".join(data[i : i + 3][::-1] for i in range(0, len(data), 3))
+        self.fp.write(data.ljust(self.linesize, b"\x00"))
 
 
 class ImageWriter:
